@@ -53,7 +53,7 @@ def check_stream(case, rec):
         rec.count("rooted_streams")
     ts = TR.run("CommandResponseStream", case.d, strict=True, rooted=rooted)
     if ts.root_escapes:
-        rec.violation("root-path", "path-outside-root", f"{case.short()}\nstream decoded with root_path='.log.msg': {TR.pstr(ts.root_escapes[0])} does not lie under that root", case.replay())
+        rec.violation("root-path", "path-outside-root", f"{case.short()}\nstream decoded with root_path='.log.msg[2]': {TR.pstr(ts.root_escapes[0])} does not lie under that root", case.replay())
     rec.case(case.sig, nontrivial=len(ref.messages) > 1)
     rec.count("messages", len(ref.messages))
     if ts.outcome[0] != "ok":
